@@ -57,6 +57,18 @@ func C08(c *core.Ctx) {
 	}}, conf{"acks: 70 KB packed message + SendRaw", ccfg{host: []byte("h"), ack: true, timeout: time.Second}, func(cf ccfg) [][]concOp {
 		return [][]concOp{{concSend(cf, "packed", 70000, "big-1", true)}, {{kind: "W", raw: []byte("\x93\xa3RAW\x01\x80")}}}
 	}})
+	failing := func(o concOp, acc int) concOp { o.wfail, o.wacc = true, acc; return o }
+	confs = append(confs,
+		conf{"a Write that takes part of the message and fails (temporary error) + 2 other senders", ccfg{host: []byte("h")}, func(cf ccfg) [][]concOp {
+			return [][]concOp{{failing(concSend(cf, "message", big, "", true), 1000)}, {concSend(cf, "message", small, "", true)}, {{kind: "W", raw: []byte("\x93\xa3RAW\x01\x80")}}}
+		}},
+		conf{"SendRaw whose Write takes 3 bytes and fails (temporary error) + sender", ccfg{host: []byte("h")}, func(cf ccfg) [][]concOp {
+			return [][]concOp{{failing(concOp{kind: "W", raw: bytes.Repeat([]byte{0xc0}, 40)}, 3)}, {concSend(cf, "message", small, "", true)}}
+		}},
+		conf{"acks: two RawMessages through Send + SendRaw", ccfg{host: []byte("h"), ack: true, timeout: time.Second}, func(cf ccfg) [][]concOp {
+			return [][]concOp{{concSend(cf, "raw", small, "raw-a", true)}, {concSend(cf, "raw", 300, "raw-b", true)}, {{kind: "W", raw: []byte("\x93\xa3RAW\x01\x80")}}}
+		}},
+	)
 	if c.Thorough() {
 		confs = append(confs, conf{"4 senders mixed sizes", ccfg{host: []byte("h")}, func(cf ccfg) [][]concOp {
 			return [][]concOp{{concSend(cf, "message", 6500, "", true)}, {concSend(cf, "message", small, "", true)}, {concSend(cf, "packed", 2049, "", true)}, {{kind: "W", raw: bytes.Repeat([]byte{0xc0}, 5000)}}}
@@ -85,6 +97,10 @@ func C08(c *core.Ctx) {
 					cands = append(cands, e)
 					must = append(must, i < len(run.rets[w]) && run.rets[w][i] == "ok")
 				}
+			}
+			for _, pb := range run.partial { // what a failed send left behind may lie between whole messages
+				cands = append(cands, pb)
+				must = append(must, false)
 			}
 			var wire []byte
 			for _, b := range run.writes[0] {
@@ -130,7 +146,7 @@ func C08(c *core.Ctx) {
 						continue
 					}
 					want := "ok"
-					if cf.ack && !o.ackOK {
+					if (cf.ack && !o.ackOK) || o.wfail {
 						want = "err"
 					}
 					if run.rets[w][i] != want {
